@@ -1,8 +1,820 @@
-//! Controlled scheduler (E-SCHED): CHESS-style exploration of the real server process through
-//! the cfg(roughenough_verif) hook points.
+//! Controlled scheduler (E-SCHED): CHESS-style stateless exploration of the real server process
+//! through the cfg(roughenough_verif) hook points. Exactly one actor runs at a time; every
+//! thread of the subject parks at each `point` until the controller releases it.
+//!
+//! Actors: main, worker-i, stats-reporting, env (a fixed program of sends / connects / signals).
+//! Search: depth-first over choice sequences with replay from process start, canonical order
+//! (running actor first, then main, workers ascending, reporter, env), iterative preemption bounding.
 
 use crate::ev::Ctx;
+use crate::proc::{free_port, scratch_dir, ServerProc, Source, Written, BASE_SEED_HEX};
+use rtref::verifier::{authentic, SERVER_VIEW};
+use rtref::Version;
 use serde_json::{json, Value};
+use std::collections::{BTreeMap, BTreeSet};
+use std::io::{Read, Write};
+use std::net::{SocketAddr, UdpSocket};
+use std::os::unix::io::AsRawFd;
+use std::os::unix::net::{UnixListener, UnixStream};
+use std::sync::atomic::{AtomicU64, Ordering::Relaxed};
+use std::sync::Mutex;
+use std::time::{Duration, Instant};
+
+#[derive(Clone, Debug, PartialEq)]
+pub enum EnvAct {
+    /// send a valid request of the given protocol from client socket #idx
+    Send(usize, Version),
+    ConnectTcp,
+    Signal(i32),
+}
+
+impl EnvAct {
+    pub fn name(&self) -> String {
+        match self {
+            EnvAct::Send(c, v) => format!("send(c{},{})", c, if *v == Version::Classic { "C" } else { "I" }),
+            EnvAct::ConnectTcp => "connect_tcp".into(),
+            EnvAct::Signal(s) => format!("signal({})", if *s == libc::SIGINT { "INT" } else { "TERM" }),
+        }
+    }
+}
+
+#[derive(Clone, Debug)]
+pub struct Scenario {
+    pub name: String,
+    pub workers: usize,
+    pub health: bool,
+    pub stats: bool,
+    pub batch_size: u8,
+    pub env: Vec<EnvAct>,
+    /// every worker performs one idle iteration before it blocks in poll
+    pub idle_iteration: bool,
+    pub horizon: usize,
+    /// what the end of an execution must look like
+    pub expect: Expect,
+    /// Serving: additionally let the process run freely at the end and probe all N workers over UDP
+    /// (otherwise liveness is read off the hook state: every worker parked at loop_top, none exited)
+    pub probe_at_end: bool,
+}
+
+#[derive(Clone, Copy, Debug, PartialEq, Eq)]
+pub enum Expect {
+    /// process alive, all N workers serving
+    Serving,
+    /// process exited with status 0 (a signal is part of the environment program)
+    CleanExit,
+}
+
+impl Scenario {
+    pub fn to_json(&self) -> Value {
+        json!({"name": self.name, "num_workers": self.workers, "health_check_port": self.health, "client_stats": self.stats, "batch_size": self.batch_size,
+               "env": self.env.iter().map(|e| e.name()).collect::<Vec<_>>(), "idle_iteration": self.idle_iteration, "horizon": self.horizon, "probe_at_end": self.probe_at_end})
+    }
+}
+
+#[derive(Clone, Debug, PartialEq, Eq, PartialOrd, Ord, Hash)]
+pub enum Actor {
+    Main,
+    Worker(usize),
+    Reporter,
+    Env,
+}
+
+impl Actor {
+    fn thread_name(&self) -> String {
+        match self {
+            Actor::Main => "main".into(),
+            Actor::Worker(i) => format!("worker-{}", i),
+            Actor::Reporter => "stats-reporting".into(),
+            Actor::Env => "env".into(),
+        }
+    }
+    fn from_thread(n: &str) -> Option<Actor> {
+        if n == "main" {
+            Some(Actor::Main)
+        } else if n == "stats-reporting" {
+            Some(Actor::Reporter)
+        } else {
+            n.strip_prefix("worker-").and_then(|i| i.parse().ok()).map(Actor::Worker)
+        }
+    }
+    pub fn name(&self) -> String {
+        self.thread_name()
+    }
+}
+
+#[derive(Default, Debug)]
+struct ThreadState {
+    conn: Option<usize>,
+    parked: Option<(String, i64)>,
+    exited: Option<String>,
+    /// released and expected to park again or exit
+    running: bool,
+}
+
+struct Conn {
+    stream: UnixStream,
+    buf: Vec<u8>,
+}
+
+#[derive(Clone, Debug)]
+pub struct StepRec {
+    pub enabled: Vec<String>,
+    pub chosen: usize,
+    pub running_still_enabled: bool,
+    pub action: String,
+}
+
+pub struct Execution {
+    pub steps: Vec<StepRec>,
+    pub end: String, // "exit:<code>" | "signal:<n>" | "quiescent" | "horizon"
+    pub trace: Vec<String>,
+    pub violations: Vec<(String, String, String)>, // clause, site, message
+    pub abstract_states: Vec<u64>,
+    pub outcome_class: String,
+}
+
+pub struct ClientSock {
+    pub sock: UdpSocket,
+    pub port: u16,
+}
+
+/// Per-thread-slot resources that outlive executions: the server port, the candidate client
+/// sockets (stable source ports) and the learned source-port -> worker map.
+pub struct Slot {
+    pub port: u16,
+    pub hport: u16,
+    pub clients: Vec<ClientSock>,
+    pub map: BTreeMap<(usize, usize), Vec<usize>>, // (n_workers, worker) -> client indices
+    pub dir: std::path::PathBuf,
+    pub lt_pk: [u8; 32],
+}
+
+impl Slot {
+    pub fn new(nclients: usize) -> Slot {
+        let clients = (0..nclients)
+            .map(|_| {
+                let s = UdpSocket::bind("127.0.0.1:0").expect("bind client");
+                s.set_nonblocking(true).unwrap();
+                let port = s.local_addr().unwrap().port();
+                ClientSock { sock: s, port }
+            })
+            .collect();
+        Slot { port: free_port(), hport: free_port(), clients, map: BTreeMap::new(), dir: scratch_dir(), lt_pk: rtref::crypto::public_key(&rtref::crypto::unhex(BASE_SEED_HEX).try_into().unwrap()) }
+    }
+    fn drain_all(&self) -> Vec<Vec<Vec<u8>>> {
+        let mut buf = [0u8; 4096];
+        self.clients
+            .iter()
+            .map(|c| {
+                let mut v = vec![];
+                while let Ok((l, _)) = c.sock.recv_from(&mut buf) {
+                    v.push(buf[..l].to_vec());
+                }
+                v
+            })
+            .collect()
+    }
+}
+
+impl Drop for Slot {
+    fn drop(&mut self) {
+        let _ = std::fs::remove_dir_all(&self.dir);
+    }
+}
+
+struct Ctl<'a> {
+    scn: &'a Scenario,
+    slot: &'a Slot,
+    listener: UnixListener,
+    conns: Vec<Conn>,
+    threads: BTreeMap<String, ThreadState>,
+    proc_: ServerProc,
+    flag_stored: bool,
+    main_in_join: bool,
+    trace: Vec<String>,
+    // enabling bookkeeping
+    wake: Vec<bool>,
+    reporter_wake: bool,
+    env_pc: usize,
+    ready_seen: BTreeSet<usize>,
+    sent_reqs: Vec<(usize, Version, Vec<u8>, Option<usize>)>, // client idx, version, request, target worker
+    tcp: Vec<std::net::TcpStream>,
+    req_ctr: u64,
+    signal_sent_at: Option<usize>,
+}
+
+const IO_TIMEOUT: Duration = Duration::from_secs(15);
+
+impl<'a> Ctl<'a> {
+    fn start(scn: &'a Scenario, slot: &'a Slot, exec_id: u64) -> Result<Ctl<'a>, String> {
+        let path = slot.dir.join(format!("ctl-{}.sock", exec_id));
+        let _ = std::fs::remove_file(&path);
+        let listener = UnixListener::bind(&path).map_err(|e| format!("bind {}: {}", path.display(), e))?;
+        listener.set_nonblocking(true).unwrap();
+        let mut w = Written::base(slot.port);
+        w.set("num_workers", &scn.workers.to_string());
+        w.set("batch_size", &scn.batch_size.to_string());
+        w.set("status_interval", "600");
+        if scn.health {
+            w.set("health_check_port", &slot.hport.to_string());
+        }
+        if scn.stats {
+            w.set("client_stats", "on");
+            w.set("persistence_directory", &slot.dir.display().to_string());
+        }
+        let env = vec![("ROUGHENOUGH_VERIF_CTL".to_string(), path.display().to_string()), ("ROUGHENOUGH_VERIF_POLL_MS".to_string(), "0".to_string())];
+        let proc_ = ServerProc::start(&w, Source::File, &env)?;
+        Ok(Ctl {
+            scn,
+            slot,
+            listener,
+            conns: vec![],
+            threads: BTreeMap::new(),
+            proc_,
+            flag_stored: false,
+            main_in_join: false,
+            trace: vec![],
+            wake: vec![scn.idle_iteration; scn.workers],
+            reporter_wake: true,
+            env_pc: 0,
+            ready_seen: BTreeSet::new(),
+            sent_reqs: vec![],
+            tcp: vec![],
+            req_ctr: exec_id << 16,
+            signal_sent_at: None,
+        })
+    }
+
+    fn exited(&mut self) -> Option<(Option<i32>, Option<i32>)> {
+        self.proc_.try_status()
+    }
+
+    /// Read whatever the subject has reported; returns true if anything arrived.
+    fn pump(&mut self, wait_ms: i32) -> bool {
+        let mut fds: Vec<libc::pollfd> = vec![libc::pollfd { fd: self.listener.as_raw_fd(), events: libc::POLLIN, revents: 0 }];
+        for c in &self.conns {
+            fds.push(libc::pollfd { fd: c.stream.as_raw_fd(), events: libc::POLLIN, revents: 0 });
+        }
+        let r = unsafe { libc::poll(fds.as_mut_ptr(), fds.len() as libc::nfds_t, wait_ms) };
+        if r <= 0 {
+            return false;
+        }
+        let mut any = false;
+        if fds[0].revents & libc::POLLIN != 0 {
+            while let Ok((s, _)) = self.listener.accept() {
+                s.set_nonblocking(true).unwrap();
+                self.conns.push(Conn { stream: s, buf: vec![] });
+                any = true;
+            }
+        }
+        let n = fds.len() - 1;
+        for i in 0..n {
+            if fds[i + 1].revents & (libc::POLLIN | libc::POLLHUP) != 0 {
+                let mut tmp = [0u8; 512];
+                loop {
+                    match self.conns[i].stream.read(&mut tmp) {
+                        Ok(0) => break,
+                        Ok(k) => {
+                            self.conns[i].buf.extend_from_slice(&tmp[..k]);
+                            any = true;
+                        }
+                        Err(_) => break,
+                    }
+                }
+                while let Some(pos) = self.conns[i].buf.iter().position(|&b| b == b'\n') {
+                    let line: Vec<u8> = self.conns[i].buf.drain(..=pos).collect();
+                    let line = String::from_utf8_lossy(&line[..line.len() - 1]).to_string();
+                    self.on_line(i, &line);
+                }
+            }
+        }
+        any
+    }
+
+    fn on_line(&mut self, conn: usize, line: &str) {
+        let p: Vec<&str> = line.split(' ').collect();
+        if p.len() < 4 {
+            return;
+        }
+        let (ty, name, kind, arg) = (p[0], p[1].to_string(), p[2].to_string(), p[3].parse::<i64>().unwrap_or(0));
+        match ty {
+            "P" => {
+                let t = self.threads.entry(name.clone()).or_default();
+                t.conn = Some(conn);
+                t.parked = Some((kind.clone(), arg));
+                t.running = false;
+                self.trace.push(format!("{}@{}({})", name, kind, arg));
+                if kind == "worker_ready" {
+                    if let Some(Actor::Worker(i)) = Actor::from_thread(&name) {
+                        self.ready_seen.insert(i);
+                    }
+                }
+            }
+            "X" => {
+                let t = self.threads.entry(name.clone()).or_default();
+                t.exited = Some(kind.clone());
+                t.parked = None;
+                t.running = false;
+                self.trace.push(format!("{}!{}", name, kind));
+            }
+            "N" => {
+                if kind == "flag_stored" {
+                    self.flag_stored = true;
+                    for w in self.wake.iter_mut() {
+                        *w = true;
+                    }
+                    self.reporter_wake = true;
+                    self.trace.push("flag_stored".into());
+                }
+            }
+            _ => {}
+        }
+    }
+
+    /// Wait until `pred` holds, the process exits, or the deadline passes.
+    fn wait_for(&mut self, what: &str, pred: &dyn Fn(&Ctl) -> bool) -> Result<bool, String> {
+        let start = Instant::now();
+        loop {
+            if pred(self) {
+                return Ok(true);
+            }
+            if self.exited().is_some() {
+                // drain what is left
+                self.pump(0);
+                return Ok(pred(self));
+            }
+            if start.elapsed() > IO_TIMEOUT {
+                return Err(format!("controller timeout waiting for {}; trace tail: {:?}; stderr: {}", what, self.trace.iter().rev().take(8).collect::<Vec<_>>(), self.proc_.stderr().lines().take(3).collect::<Vec<_>>().join(" | ")));
+            }
+            self.pump(20);
+        }
+    }
+
+    fn parked_at(&self, a: &Actor) -> Option<&(String, i64)> {
+        self.threads.get(&a.thread_name()).and_then(|t| t.parked.as_ref())
+    }
+
+    fn settled(&self, name: &str) -> bool {
+        self.threads.get(name).map(|t| t.parked.is_some() || t.exited.is_some()).unwrap_or(false)
+    }
+
+    fn release(&mut self, a: &Actor) -> Result<(), String> {
+        let name = a.thread_name();
+        let (kind, arg) = self.parked_at(a).cloned().ok_or_else(|| format!("release of {} which is not parked", name))?;
+        let t = self.threads.get_mut(&name).unwrap();
+        t.parked = None;
+        t.running = true;
+        let conn = t.conn.unwrap();
+        let _ = self.conns[conn].stream.write_all(b"G");
+        // what must happen before the step is complete
+        let mut expect: Vec<String> = vec![];
+        match (a, kind.as_str()) {
+            (Actor::Main, "spawn") => {
+                expect.push("main".into());
+                expect.push(format!("worker-{}", arg));
+            }
+            (Actor::Main, "cfg_read") => {
+                expect.push("main".into());
+                if self.scn.stats {
+                    expect.push("stats-reporting".into());
+                }
+            }
+            (Actor::Main, "join_all") => {
+                self.main_in_join = true;
+                self.threads.get_mut("main").unwrap().running = false;
+            }
+            (Actor::Main, "main_done") => {
+                // process::exit follows
+                let start = Instant::now();
+                while self.exited().is_none() {
+                    if start.elapsed() > IO_TIMEOUT {
+                        return Err("process did not exit after main_done".into());
+                    }
+                    self.pump(5);
+                }
+                return Ok(());
+            }
+            _ => expect.push(name.clone()),
+        }
+        if let Actor::Worker(i) = a {
+            if kind == "loop_top" {
+                self.wake[*i] = false;
+            }
+        }
+        if *a == Actor::Reporter {
+            self.reporter_wake = false;
+        }
+        let what = format!("{} after {}({})", expect.join("+"), kind, arg);
+        self.wait_for(&what, &|c: &Ctl| expect.iter().all(|n| c.settled(n)))?;
+        // main blocked in join parks at main_done once every thread is gone
+        if self.main_in_join && self.threads.iter().filter(|(n, _)| n.as_str() != "main").all(|(_, t)| t.exited.is_some()) && self.threads.len() > 1 {
+            let all_expected = self.scn.workers + if self.scn.stats { 1 } else { 0 };
+            let exited = self.threads.iter().filter(|(n, t)| n.as_str() != "main" && t.exited.is_some()).count();
+            if exited >= all_expected {
+                self.wait_for("main after the last join", &|c: &Ctl| c.settled("main"))?;
+                if self.parked_at(&Actor::Main).is_some() {
+                    self.main_in_join = false;
+                }
+            }
+        }
+        Ok(())
+    }
+
+    fn target_worker(&self, client: usize) -> Option<usize> {
+        for w in 0..self.scn.workers {
+            if let Some(v) = self.slot.map.get(&(self.scn.workers, w)) {
+                if v.contains(&client) {
+                    return Some(w);
+                }
+            }
+        }
+        None
+    }
+
+    fn do_env(&mut self) -> Result<(), String> {
+        let act = self.scn.env[self.env_pc].clone();
+        self.env_pc += 1;
+        self.trace.push(format!("env:{}", act.name()));
+        match act {
+            EnvAct::Send(c, v) => {
+                self.req_ctr += 1;
+                let req = rtref::responder::std_request(v, &crate::inproc::nonce(self.req_ctr, v.nonce_len()));
+                let addr: SocketAddr = format!("127.0.0.1:{}", self.slot.port).parse().unwrap();
+                self.slot.clients[c].sock.send_to(&req, addr).map_err(|e| format!("env send: {}", e))?;
+                let tw = self.target_worker(c);
+                match tw {
+                    Some(w) => self.wake[w] = true,
+                    None => {
+                        for w in self.wake.iter_mut() {
+                            *w = true;
+                        }
+                    }
+                }
+                self.sent_reqs.push((c, v, req, tw));
+            }
+            EnvAct::ConnectTcp => {
+                let addr: SocketAddr = format!("127.0.0.1:{}", self.slot.hport).parse().unwrap();
+                match std::net::TcpStream::connect_timeout(&addr, Duration::from_secs(2)) {
+                    Ok(s) => self.tcp.push(s),
+                    Err(e) => self.trace.push(format!("connect failed: {}", e)),
+                }
+                for w in self.wake.iter_mut() {
+                    *w = true;
+                }
+            }
+            EnvAct::Signal(s) => {
+                self.proc_.signal(s);
+                self.signal_sent_at = Some(self.trace.len());
+                // atomic environment action: complete once the flag is recorded (or the process died)
+                self.wait_for("flag stored after signal", &|c: &Ctl| c.flag_stored)?;
+            }
+        }
+        Ok(())
+    }
+
+    fn enabled(&self) -> Vec<Actor> {
+        let mut v = vec![];
+        if let Some(_) = self.parked_at(&Actor::Main) {
+            v.push(Actor::Main);
+        }
+        for i in 0..self.scn.workers {
+            let a = Actor::Worker(i);
+            if let Some((k, _)) = self.parked_at(&a) {
+                if k != "loop_top" || self.wake[i] {
+                    v.push(a);
+                }
+            }
+        }
+        if self.parked_at(&Actor::Reporter).is_some() && self.reporter_wake {
+            v.push(Actor::Reporter);
+        }
+        if self.env_pc < self.scn.env.len() {
+            let serving = self.ready_seen.len() >= self.scn.workers;
+            let ok = match self.scn.env[self.env_pc] {
+                // "once the server is serving"
+                EnvAct::Signal(_) => serving && self.main_in_join,
+                _ => serving,
+            };
+            if ok {
+                v.push(Actor::Env);
+            }
+        }
+        v
+    }
+
+    /// hash of the abstract hook-level state (who is parked where, flag, env pc)
+    fn abstract_state(&self) -> u64 {
+        use std::hash::{Hash, Hasher};
+        let mut h = std::collections::hash_map::DefaultHasher::new();
+        for (n, t) in &self.threads {
+            n.hash(&mut h);
+            t.parked.hash(&mut h);
+            t.exited.hash(&mut h);
+        }
+        self.flag_stored.hash(&mut h);
+        self.env_pc.hash(&mut h);
+        self.wake.hash(&mut h);
+        self.main_in_join.hash(&mut h);
+        h.finish()
+    }
+
+    /// Release every parked thread immediately from now on ("fair default continuation" with the
+    /// scheduler out of the way) for `dur`, pumping messages.
+    fn free_run(&mut self, dur: Duration) {
+        let start = Instant::now();
+        while start.elapsed() < dur {
+            self.pump(5);
+            let names: Vec<String> = self.threads.iter().filter(|(_, t)| t.parked.is_some()).map(|(n, _)| n.clone()).collect();
+            for n in names {
+                let t = self.threads.get_mut(&n).unwrap();
+                t.parked = None;
+                if let Some(c) = t.conn {
+                    let _ = self.conns[c].stream.write_all(b"G");
+                }
+            }
+            if self.exited().is_some() {
+                break;
+            }
+        }
+    }
+}
+
+fn canonical_order(enabled: &[Actor], running: &Option<Actor>) -> (Vec<Actor>, bool) {
+    let mut v: Vec<Actor> = vec![];
+    let mut still = false;
+    if let Some(r) = running {
+        if enabled.contains(r) {
+            v.push(r.clone());
+            still = true;
+        }
+    }
+    let mut rest: Vec<Actor> = enabled.iter().filter(|a| Some(*a) != running.as_ref() || !still).cloned().collect();
+    rest.sort();
+    rest.dedup();
+    for a in rest {
+        if !v.contains(&a) {
+            v.push(a);
+        }
+    }
+    (v, still)
+}
+
+static EXEC_ID: AtomicU64 = AtomicU64::new(1);
+
+/// Run one execution: replay `prefix`, then choice 0 to the end. `prefix_sig` (if given) are the
+/// enabled-set signatures recorded when the prefix was first seen; a mismatch is a hard error.
+pub fn run_execution(scn: &Scenario, slot: &Slot, prefix: &[usize], prefix_sig: &[String]) -> Result<Execution, String> {
+    let id = EXEC_ID.fetch_add(1, Relaxed);
+    // clear stale datagrams
+    let _ = slot.drain_all();
+    let mut c = Ctl::start(scn, slot, id)?;
+    c.wait_for("main at its first point", &|c: &Ctl| c.settled("main"))?;
+    let mut steps: Vec<StepRec> = vec![];
+    let mut running: Option<Actor> = None;
+    let mut abstract_states = vec![];
+    let end;
+    loop {
+        if let Some((code, sig)) = c.exited() {
+            end = match (code, sig) {
+                (Some(k), _) => format!("exit:{}", k),
+                (None, Some(s)) => format!("signal:{}", s),
+                _ => "exit:?".to_string(),
+            };
+            break;
+        }
+        let en = c.enabled();
+        if en.is_empty() {
+            end = "quiescent".to_string();
+            break;
+        }
+        if steps.len() >= scn.horizon {
+            end = "horizon".to_string();
+            break;
+        }
+        let (order, still) = canonical_order(&en, &running);
+        let sig = order.iter().map(|a| format!("{}@{}", a.name(), c.parked_at(a).map(|p| p.0.clone()).unwrap_or_else(|| "env".into()))).collect::<Vec<_>>().join(",");
+        let k = steps.len();
+        let choice = if k < prefix.len() { prefix[k] } else { 0 };
+        if k < prefix_sig.len() && prefix_sig[k] != sig {
+            c.proc_.kill();
+            return Err(format!("replay divergence at step {}: recorded [{}] now [{}] (scenario {})", k, prefix_sig[k], sig, scn.name));
+        }
+        if choice >= order.len() {
+            c.proc_.kill();
+            return Err(format!("replay divergence at step {}: choice {} of {} enabled [{}]", k, choice, order.len(), sig));
+        }
+        let actor = order[choice].clone();
+        let action = match &actor {
+            Actor::Env => format!("env:{}", scn.env[c.env_pc].name()),
+            a => format!("{}@{}", a.name(), c.parked_at(a).map(|p| format!("{}({})", p.0, p.1)).unwrap_or_default()),
+        };
+        steps.push(StepRec { enabled: order.iter().map(|a| a.name()).collect(), chosen: choice, running_still_enabled: still, action });
+        // remember the signature in the record for later prefix checks
+        steps.last_mut().unwrap().enabled = vec![sig];
+        abstract_states.push(c.abstract_state());
+        if actor == Actor::Env {
+            c.do_env()?;
+        } else {
+            c.release(&actor)?;
+        }
+        running = Some(actor);
+    }
+    // ---- judge on the real process
+    let mut violations: Vec<(String, String, String)> = vec![];
+    let stderr_now = c.proc_.stderr();
+    let panicked: Vec<String> = c.threads.iter().filter(|(_, t)| t.exited.as_deref() == Some("panic")).map(|(n, _)| n.clone()).collect();
+    let mut class = end.clone();
+    match scn.expect {
+        Expect::Serving => {
+            if end.starts_with("exit") || end.starts_with("signal") {
+                let site = if stderr_now.contains("failed to bind TCP listener") { "health-listener-bind" } else if stderr_now.contains("PoisonError") { "poisoned-config-lock" } else { "other" };
+                violations.push(("start-failed".into(), site.into(), format!("server process ended ({}) although no signal was sent; stderr: {}", end, stderr_now.lines().filter(|l| l.contains("panicked")).take(2).collect::<Vec<_>>().join(" | "))));
+            } else if end == "horizon" {
+                violations.push(("horizon-exceeded".into(), "scheduler".into(), format!("{} steps without quiescence", steps.len())));
+            } else {
+                if !panicked.is_empty() {
+                    let site = if stderr_now.contains("failed to bind TCP listener") { "health-listener-bind" } else { "worker-panic" };
+                    violations.push(("fewer-live-workers".into(), site.into(), format!("threads panicked: {:?} while the process keeps running", panicked)));
+                }
+                let gone: Vec<String> = c.threads.iter().filter(|(n, t)| n.starts_with("worker-") && t.exited.is_some()).map(|(n, _)| n.clone()).collect();
+                if !gone.is_empty() && panicked.is_empty() {
+                    violations.push(("fewer-live-workers".into(), "worker-exit".into(), format!("workers exited: {:?}", gone)));
+                }
+                // replies to the environment's requests (collected after the controlled part)
+                let replies = slot.drain_all();
+                let mut keys_by_worker: BTreeMap<usize, BTreeSet<Vec<u8>>> = BTreeMap::new();
+                let mut all_keys: BTreeMap<Vec<u8>, BTreeSet<usize>> = BTreeMap::new();
+                let mut per_client_expected: BTreeMap<usize, Vec<usize>> = BTreeMap::new();
+                for (i, r) in c.sent_reqs.iter().enumerate() {
+                    per_client_expected.entry(r.0).or_default().push(i);
+                }
+                for (ci, got) in replies.iter().enumerate() {
+                    let exp = per_client_expected.get(&ci).cloned().unwrap_or_default();
+                    if got.len() != exp.len() {
+                        violations.push((if got.len() < exp.len() { "missing-reply".into() } else { "extra-reply".into() }, "responder".into(), format!("client c{} sent {} requests and received {} datagrams", ci, exp.len(), got.len())));
+                    }
+                    let mut pending = exp.clone();
+                    for d in got {
+                        let mut hit = None;
+                        for (pi, &ri) in pending.iter().enumerate() {
+                            let (_, v, req, tw) = &c.sent_reqs[ri];
+                            if let Ok(info) = authentic(d, req, *v, Some(&slot.lt_pk), SERVER_VIEW) {
+                                hit = Some((pi, *tw, info.online_pk, *v));
+                                break;
+                            }
+                        }
+                        match hit {
+                            Some((pi, tw, pk, v)) => {
+                                pending.remove(pi);
+                                if let Some(w) = tw {
+                                    // classic and IETF responders of one worker have different online keys
+                                    keys_by_worker.entry(w * 2 + if v == Version::Classic { 0 } else { 1 }).or_default().insert(pk.clone());
+                                    all_keys.entry(pk).or_default().insert(w);
+                                }
+                            }
+                            None => violations.push(("reply-not-authentic".into(), "responder".into(), format!("client c{} received a datagram that verifies for none of its requests", ci))),
+                        }
+                    }
+                }
+                for (w, ks) in &keys_by_worker {
+                    if ks.len() > 1 {
+                        violations.push(("reply-from-other-worker".into(), "responder".into(), format!("requests delivered to worker {} were answered under {} different delegated keys", w / 2, ks.len())));
+                    }
+                }
+                for (_, ws) in &all_keys {
+                    if ws.len() > 1 {
+                        violations.push(("delegated-key-shared".into(), "responder".into(), format!("one delegated key answered for workers {:?}", ws)));
+                    }
+                }
+                // all N workers alive and serving: let the process run freely and probe it
+                if !scn.probe_at_end {
+                    let not_idle: Vec<String> = (0..scn.workers).filter(|w| c.parked_at(&Actor::Worker(*w)).map(|p| p.0 != "loop_top").unwrap_or(true)).map(|w| format!("worker-{}", w)).collect();
+                    if !not_idle.is_empty() && violations.is_empty() {
+                        violations.push(("worker-not-idle-at-quiescence".into(), "scheduler".into(), format!("{:?} not parked at loop_top at the end", not_idle)));
+                    }
+                    class = format!("quiescent:{}replies", replies.iter().map(|r| r.len()).sum::<usize>());
+                }
+                if violations.is_empty() && scn.probe_at_end {
+                    let pid_alive = c.exited().is_none();
+                    if pid_alive {
+                        // free-running continuation in a helper: release everything while probing
+                        let port = slot.port;
+                        let lt = slot.lt_pk;
+                        let n = scn.workers;
+                        let h = std::thread::spawn(move || crate::proc::probe_workers(port, &lt, n, 24 * n + 16, false));
+                        c.free_run(Duration::from_millis(150));
+                        let mut waited = 0;
+                        while !h.is_finished() && waited < 400 {
+                            c.free_run(Duration::from_millis(25));
+                            waited += 1;
+                        }
+                        let (keys, _, bad) = h.join().unwrap_or_default();
+                        if keys.len() < n {
+                            let site = if c.proc_.stderr().contains("failed to bind TCP listener") { "health-listener-bind" } else { "other" };
+                            violations.push(("fewer-live-workers".into(), site.into(), format!("{} of {} workers answer after start-up", keys.len(), n)));
+                        }
+                        if bad > 0 {
+                            violations.push(("reply-not-authentic".into(), "responder".into(), format!("{} unauthentic replies in the free-running probe", bad)));
+                        }
+                        class = format!("serving:{}of{}", keys.len().min(n), n);
+                    }
+                }
+            }
+        }
+        Expect::CleanExit => {
+            let replies = slot.drain_all();
+            // every datagram received is an authentic reply to one of the requests of that client
+            for (ci, got) in replies.iter().enumerate() {
+                for d in got {
+                    let ok = c.sent_reqs.iter().filter(|r| r.0 == ci).any(|(_, v, req, _)| authentic(d, req, *v, Some(&slot.lt_pk), SERVER_VIEW).is_ok());
+                    if !ok {
+                        violations.push(("reply-not-authentic".into(), "responder".into(), format!("client c{} received an invalid datagram around shutdown", ci)));
+                    }
+                }
+            }
+            let signalled = c.signal_sent_at.is_some();
+            if !signalled {
+                // the schedule ended before the signal could be delivered: nothing to judge for C19
+                if end != "quiescent" {
+                    violations.push(("ended-before-signal".into(), "scheduler".into(), format!("execution ended ({}) before the environment's signal", end)));
+                }
+                class = format!("{}:no-signal", end);
+            } else if end == "exit:0" {
+                if stderr_now.contains("panicked") {
+                    violations.push(("panic-output".into(), "stderr".into(), stderr_now.lines().filter(|l| l.contains("panicked")).take(2).collect::<Vec<_>>().join(" | ")));
+                }
+            } else if end == "quiescent" {
+                violations.push(("deadlock-after-signal".into(), "shutdown".into(), format!("signal delivered and recorded, no actor enabled, process still alive; parked: {:?}", c.threads.iter().map(|(n, t)| format!("{}:{:?}/{:?}", n, t.parked.as_ref().map(|p| p.0.clone()), t.exited)).collect::<Vec<_>>())));
+            } else if end == "horizon" {
+                violations.push(("no-exit-within-horizon".into(), "shutdown".into(), format!("signal delivered, {} steps later the process is still running", steps.len())));
+            } else {
+                let site = if end.starts_with("signal") { "killed-by-signal" } else { "nonzero-exit" };
+                violations.push(("unclean-exit".into(), site.into(), format!("after the signal the process ended with {}; stderr: {}", end, stderr_now.lines().filter(|l| l.contains("panicked")).take(2).collect::<Vec<_>>().join(" | "))));
+            }
+        }
+    }
+    let trace = c.trace.clone();
+    c.proc_.kill();
+    Ok(Execution { steps, end, trace, violations, abstract_states, outcome_class: class })
+}
+
+/// Learn which client sockets reach which worker (SO_REUSEPORT hash) for `n` workers on this slot.
+pub fn calibrate(slot: &mut Slot, n: usize, batch_size: u8) -> Result<(), String> {
+    if (0..n).all(|w| slot.map.contains_key(&(n, w))) {
+        return Ok(());
+    }
+    let scn = Scenario { name: format!("calibrate-{}", n), workers: n, health: false, stats: false, batch_size, env: vec![], idle_iteration: false, horizon: 10_000, expect: Expect::Serving, probe_at_end: false };
+    let id = EXEC_ID.fetch_add(1, Relaxed);
+    let mut c = Ctl::start(&scn, slot, id)?;
+    c.wait_for("main", &|c: &Ctl| c.settled("main"))?;
+    // default schedule to the serving state
+    loop {
+        let en = c.enabled();
+        if en.is_empty() {
+            break;
+        }
+        c.release(&en[0].clone())?;
+    }
+    if c.ready_seen.len() < n || !c.main_in_join {
+        let e = c.proc_.stderr();
+        c.proc_.kill();
+        return Err(format!("calibration: server did not reach the serving state ({} of {} workers ready); stderr: {}", c.ready_seen.len(), n, e.lines().take(3).collect::<Vec<_>>().join(" | ")));
+    }
+    let addr: SocketAddr = format!("127.0.0.1:{}", slot.port).parse().unwrap();
+    let mut map: BTreeMap<usize, Vec<usize>> = BTreeMap::new();
+    for ci in 0..slot.clients.len() {
+        let req = rtref::responder::std_request(Version::Classic, &crate::inproc::nonce(0xca1 + ci as u64, 64));
+        slot.clients[ci].sock.send_to(&req, addr).map_err(|e| e.to_string())?;
+        // one iteration of every worker; the one that polls an event is the receiver
+        let mut hit = None;
+        for w in 0..n {
+            let a = Actor::Worker(w);
+            c.release(&a)?; // loop_top -> polled(k)
+            let k = c.parked_at(&a).map(|p| (p.0.clone(), p.1));
+            if let Some((kind, events)) = k {
+                if kind == "polled" && events > 0 {
+                    hit = Some(w);
+                }
+            }
+            // finish the iteration
+            let mut guard = 0;
+            while c.parked_at(&a).map(|p| p.0 != "loop_top").unwrap_or(false) && guard < 50 {
+                c.release(&a)?;
+                guard += 1;
+            }
+        }
+        if let Some(w) = hit {
+            map.entry(w).or_default().push(ci);
+        }
+    }
+    c.proc_.kill();
+    let _ = slot.drain_all();
+    for w in 0..n {
+        let v = map.remove(&w).unwrap_or_default();
+        slot.map.insert((n, w), v);
+    }
+    Ok(())
+}
 
 #[derive(Default)]
 pub struct SchedSummary {
@@ -12,14 +824,353 @@ pub struct SchedSummary {
     pub bound_completed: i64,
     pub caps_hit: Vec<String>,
     pub scenarios: Vec<Value>,
+    pub outcome_classes: BTreeMap<String, u64>,
 }
 
 impl SchedSummary {
     pub fn to_json(&self) -> Value {
-        json!({"executions": self.executions, "distinct_hook_states": self.states, "transitions": self.transitions, "preemption_bound_completed": self.bound_completed, "scenarios": self.scenarios})
+        json!({"executions": self.executions, "distinct_hook_states": self.states, "transitions": self.transitions, "preemption_bound_completed": self.bound_completed, "scenarios": self.scenarios, "outcome_classes": self.outcome_classes})
+    }
+    pub fn merge(&mut self, o: SchedSummary) {
+        self.executions += o.executions;
+        self.states += o.states;
+        self.transitions += o.transitions;
+        self.bound_completed = if self.scenarios.is_empty() { o.bound_completed } else { self.bound_completed.min(o.bound_completed) };
+        self.caps_hit.extend(o.caps_hit);
+        self.scenarios.extend(o.scenarios);
+        for (k, v) in o.outcome_classes {
+            *self.outcome_classes.entry(k).or_insert(0) += v;
+        }
     }
 }
 
-pub fn c15_startup_schedules(_ctx: &Ctx) -> Result<SchedSummary, String> {
-    Ok(SchedSummary::default())
+struct Work {
+    prefix: Vec<usize>,
+    sig: Vec<String>,
+    preemptions: usize,
+}
+
+/// Explore one scenario with iterative preemption bounding 0..=max_bound on `nthreads` slots.
+/// `make_env` builds the environment program for a slot (client indices depend on the slot's map).
+pub fn explore(
+    ctx: &Ctx,
+    property_site: &str,
+    scn_proto: &Scenario,
+    make_env: &(dyn Fn(&Slot) -> Option<Vec<EnvAct>> + Sync),
+    max_bound: usize,
+    exec_cap: u64,
+    wall_cap: Duration,
+) -> Result<SchedSummary, String> {
+    let nthreads = crate::util::nthreads().min(16);
+    let start = Instant::now();
+    let queue: Mutex<Vec<Work>> = Mutex::new(vec![Work { prefix: vec![], sig: vec![], preemptions: 0 }]);
+    let in_flight = AtomicU64::new(0);
+    let executions = AtomicU64::new(0);
+    let transitions = AtomicU64::new(0);
+    let states: Mutex<BTreeSet<u64>> = Mutex::new(BTreeSet::new());
+    let classes: Mutex<BTreeMap<String, u64>> = Mutex::new(BTreeMap::new());
+    let failed: Mutex<Option<String>> = Mutex::new(None);
+    let capped = AtomicU64::new(0);
+    let first_trace: Mutex<Option<Vec<String>>> = Mutex::new(None);
+    let need_clients = scn_proto.workers * 24 + 8;
+
+    // determinism self-test: the default schedule twice gives the same point sequence
+    {
+        let mut slot = Slot::new(need_clients);
+        if scn_proto.workers > 1 || !scn_proto.env.is_empty() || true {
+            calibrate(&mut slot, scn_proto.workers, scn_proto.batch_size)?;
+        }
+        let mut scn = scn_proto.clone();
+        if let Some(env) = make_env(&slot) {
+            scn.env = env;
+        }
+        let a = run_execution(&scn, &slot, &[], &[])?;
+        let b = run_execution(&scn, &slot, &[], &[])?;
+        let sa: Vec<&String> = a.steps.iter().map(|s| &s.action).collect();
+        let sb: Vec<&String> = b.steps.iter().map(|s| &s.action).collect();
+        if sa != sb || a.end != b.end {
+            return Err(format!("determinism self-test failed for scenario {}: {:?} ({}) vs {:?} ({})", scn.name, sa, a.end, sb, b.end));
+        }
+    }
+
+    std::thread::scope(|s| {
+        for t in 0..nthreads {
+            let queue = &queue;
+            let in_flight = &in_flight;
+            let executions = &executions;
+            let transitions = &transitions;
+            let states = &states;
+            let classes = &classes;
+            let failed = &failed;
+            let capped = &capped;
+            let first_trace = &first_trace;
+            std::thread::Builder::new()
+                .name(format!("sched-{}", t))
+                .spawn_scoped(s, move || {
+                    let mut slot = Slot::new(need_clients);
+                    if let Err(e) = calibrate(&mut slot, scn_proto.workers, scn_proto.batch_size) {
+                        *failed.lock().unwrap() = Some(e);
+                        return;
+                    }
+                    let mut scn = scn_proto.clone();
+                    match make_env(&slot) {
+                        Some(env) => scn.env = env,
+                        None => {}
+                    }
+                    loop {
+                        if failed.lock().unwrap().is_some() {
+                            return;
+                        }
+                        let w = {
+                            let mut q = queue.lock().unwrap();
+                            match q.pop() {
+                                Some(w) => {
+                                    in_flight.fetch_add(1, Relaxed);
+                                    Some(w)
+                                }
+                                None => None,
+                            }
+                        };
+                        let w = match w {
+                            Some(w) => w,
+                            None => {
+                                if in_flight.load(Relaxed) == 0 {
+                                    return;
+                                }
+                                std::thread::sleep(Duration::from_millis(2));
+                                continue;
+                            }
+                        };
+                        if executions.load(Relaxed) >= exec_cap || start.elapsed() > wall_cap {
+                            capped.fetch_add(1, Relaxed);
+                            in_flight.fetch_sub(1, Relaxed);
+                            continue;
+                        }
+                        match run_execution(&scn, &slot, &w.prefix, &w.sig) {
+                            Err(e) => {
+                                *failed.lock().unwrap() = Some(e);
+                                in_flight.fetch_sub(1, Relaxed);
+                                return;
+                            }
+                            Ok(x) => {
+                                executions.fetch_add(1, Relaxed);
+                                transitions.fetch_add(x.steps.len() as u64, Relaxed);
+                                {
+                                    let mut st = states.lock().unwrap();
+                                    for h in &x.abstract_states {
+                                        st.insert(*h);
+                                    }
+                                }
+                                *classes.lock().unwrap().entry(x.outcome_class.clone()).or_insert(0) += 1;
+                                if first_trace.lock().unwrap().is_none() {
+                                    *first_trace.lock().unwrap() = Some(x.steps.iter().map(|s| s.action.clone()).collect());
+                                }
+                                for (clause, site, msg) in &x.violations {
+                                    ctx.violation(clause, site, property_site, json!({"kind":"schedule","scenario":scn.to_json(),"choices":x.steps.iter().map(|s| s.chosen).collect::<Vec<_>>(),"schedule":x.steps.iter().map(|s| s.action.clone()).collect::<Vec<_>>(),"end":x.end,"message":msg}));
+                                }
+                                // children: deviate at every step at or after the prefix
+                                // preemptions are recounted over the whole execution (it includes the prefix)
+                                let mut pre = 0usize;
+                                let mut children = vec![];
+                                for i in 0..x.steps.len() {
+                                    let st = &x.steps[i];
+                                    let n_enabled = st.enabled[0].split(',').count();
+                                    if i >= w.prefix.len() {
+                                        for alt in 1..n_enabled {
+                                            let cost = pre + if st.running_still_enabled { 1 } else { 0 };
+                                            if cost > max_bound {
+                                                continue;
+                                            }
+                                            let mut p: Vec<usize> = x.steps[..i].iter().map(|s| s.chosen).collect();
+                                            p.push(alt);
+                                            let mut sg: Vec<String> = x.steps[..=i].iter().map(|s| s.enabled[0].clone()).collect();
+                                            sg.truncate(i + 1);
+                                            children.push(Work { prefix: p, sig: sg, preemptions: cost });
+                                        }
+                                    }
+                                    if st.chosen != 0 && st.running_still_enabled {
+                                        pre += 1;
+                                    }
+                                }
+                                queue.lock().unwrap().extend(children);
+                                in_flight.fetch_sub(1, Relaxed);
+                            }
+                        }
+                    }
+                })
+                .expect("spawn sched thread");
+        }
+    });
+    if let Some(e) = failed.lock().unwrap().take() {
+        return Err(e);
+    }
+    let mut sum = SchedSummary::default();
+    sum.executions = executions.load(Relaxed);
+    sum.states = states.lock().unwrap().len() as u64;
+    sum.transitions = transitions.load(Relaxed);
+    sum.bound_completed = if capped.load(Relaxed) == 0 { max_bound as i64 } else { -1 };
+    if capped.load(Relaxed) > 0 {
+        sum.caps_hit.push(format!("scenario {}: {} pending schedules dropped at the execution/wall cap ({} executed)", scn_proto.name, capped.load(Relaxed), sum.executions));
+    }
+    sum.outcome_classes = classes.lock().unwrap().clone();
+    sum.scenarios.push(json!({"scenario": scn_proto.to_json(), "executions": sum.executions, "preemption_bound": max_bound, "completed": capped.load(Relaxed) == 0, "distinct_hook_states": sum.states, "default_schedule": first_trace.lock().unwrap().clone()}));
+    Ok(sum)
+}
+
+// ---------------------------------------------------------------------------------------------
+// property-specific scenario sets
+
+pub fn c15_startup_schedules(ctx: &Ctx) -> Result<SchedSummary, String> {
+    let mut total = SchedSummary::default();
+    let ns: Vec<usize> = ctx.tier.pick(vec![1, 2], vec![1, 2, 3]);
+    for &n in &ns {
+        for health in [false, true] {
+            for stats in [false, true] {
+                if ctx.tier == crate::ev::Tier::Quick && stats && !health {
+                    continue;
+                }
+                let scn = Scenario {
+                    name: format!("startup-n{}-hc{}-stats{}", n, health as u8, stats as u8),
+                    workers: n,
+                    health,
+                    stats,
+                    batch_size: 64,
+                    env: vec![],
+                    idle_iteration: false,
+                    horizon: 200,
+                    expect: Expect::Serving,
+                    probe_at_end: true,
+                };
+                let bound = if n <= 2 { ctx.tier.pick(2, 3) } else { 2 };
+                let s = explore(ctx, &format!("{}{}", if health { "health_check_port set" } else { "no health check" }, if n >= 2 { " && num_workers>=2" } else { " && num_workers=1" }), &scn, &|_s: &Slot| None, bound, ctx.tier.pick(400, 6000), Duration::from_secs(ctx.tier.pick(25, 240)))?;
+                total.merge(s);
+            }
+        }
+    }
+    Ok(total)
+}
+
+/// replay a recorded schedule (choices) of a scenario; returns the first violation message
+pub fn replay_schedule(c: &Value) -> Result<Option<String>, String> {
+    let s = &c["scenario"];
+    let parse_env = |e: &Value| -> Option<EnvAct> {
+        let t = e.as_str()?;
+        if t == "connect_tcp" {
+            return Some(EnvAct::ConnectTcp);
+        }
+        if t == "signal(INT)" {
+            return Some(EnvAct::Signal(libc::SIGINT));
+        }
+        if t == "signal(TERM)" {
+            return Some(EnvAct::Signal(libc::SIGTERM));
+        }
+        let inner = t.strip_prefix("send(c")?.strip_suffix(')')?;
+        let (ci, v) = inner.split_once(',')?;
+        Some(EnvAct::Send(ci.parse().ok()?, if v == "C" { Version::Classic } else { Version::Ietf13 }))
+    };
+    let scn = Scenario {
+        name: s["name"].as_str().unwrap_or("replay").to_string(),
+        workers: s["num_workers"].as_u64().ok_or("num_workers")? as usize,
+        health: s["health_check_port"].as_bool().unwrap_or(false),
+        stats: s["client_stats"].as_bool().unwrap_or(false),
+        batch_size: s["batch_size"].as_u64().unwrap_or(64) as u8,
+        env: s["env"].as_array().map(|a| a.iter().filter_map(parse_env).collect()).unwrap_or_default(),
+        idle_iteration: s["idle_iteration"].as_bool().unwrap_or(false),
+        horizon: s["horizon"].as_u64().unwrap_or(400) as usize,
+        probe_at_end: s["probe_at_end"].as_bool().unwrap_or(false),
+        expect: if s["env"].as_array().map(|a| a.iter().any(|e| e.as_str().map(|t| t.starts_with("signal")).unwrap_or(false))).unwrap_or(false) { Expect::CleanExit } else { Expect::Serving },
+    };
+    let choices: Vec<usize> = c["choices"].as_array().ok_or("choices")?.iter().map(|x| x.as_u64().unwrap_or(0) as usize).collect();
+    let mut slot = Slot::new(scn.workers * 24 + 8);
+    calibrate(&mut slot, scn.workers, scn.batch_size)?;
+    // client indices in the recorded environment program refer to the recording slot's map; a
+    // replay keeps the indices (the distribution over workers may differ, the schedule is the same)
+    let x = run_execution(&scn, &slot, &choices, &[])?;
+    Ok(x.violations.first().map(|v| format!("{} {} {}", v.0, v.1, v.2)))
+}
+
+// ---------------------------------------------------------------------------------------------
+// C19 part 2: open-loop flood lasso
+
+/// One adversarial execution: one worker, after the flag is stored the environment refills the
+/// socket with `batch_size` datagrams before every release of the worker while it is inside the
+/// receive loop. Returns (flag_check reached, rounds, steps).
+pub fn flood_lasso_once(batch_size: u8, max_rounds: usize) -> Result<(bool, usize, usize), String> {
+    let mut slot = Slot::new(8);
+    calibrate(&mut slot, 1, batch_size)?;
+    let scn = Scenario { name: format!("flood-bs{}", batch_size), workers: 1, health: false, stats: false, batch_size, env: vec![], idle_iteration: false, horizon: 10_000, expect: Expect::CleanExit, probe_at_end: false };
+    let id = EXEC_ID.fetch_add(1, Relaxed);
+    let mut c = Ctl::start(&scn, &slot, id)?;
+    c.wait_for("main", &|c: &Ctl| c.settled("main"))?;
+    loop {
+        let en = c.enabled();
+        if en.is_empty() {
+            break;
+        }
+        c.release(&en[0].clone())?;
+    }
+    let addr: SocketAddr = format!("127.0.0.1:{}", slot.port).parse().unwrap();
+    let w0 = Actor::Worker(0);
+    let mut ctr = 0u64;
+    let mut refill = |k: usize| {
+        for _ in 0..k {
+            ctr += 1;
+            let req = rtref::responder::std_request(Version::Classic, &crate::inproc::nonce(0xf100d + ctr, 64));
+            let _ = slot.clients[(ctr % 8) as usize].sock.send_to(&req, addr);
+        }
+    };
+    // fill more than one batch so that the first collect does not drain the socket
+    refill(batch_size as usize * 2);
+    c.wake[0] = true;
+    c.release(&w0)?; // loop_top -> polled
+    c.release(&w0)?; // polled -> collected(0)
+    let mut steps = 2;
+    // now inside the receive loop: deliver the signal
+    c.proc_.signal(libc::SIGINT);
+    c.wait_for("flag stored", &|c: &Ctl| c.flag_stored)?;
+    let mut rounds = 0;
+    let mut reached = false;
+    while rounds < max_rounds {
+        match c.parked_at(&w0).map(|p| p.0.clone()) {
+            Some(k) if k == "flag_check" => {
+                reached = true;
+                break;
+            }
+            Some(k) => {
+                if k == "sent" || k == "collected" {
+                    refill(batch_size as usize);
+                    if k == "sent" {
+                        rounds += 1;
+                    }
+                }
+                c.release(&w0)?;
+                steps += 1;
+            }
+            None => break, // exited
+        }
+        let _ = slot.drain_all();
+    }
+    if c.threads.get("worker-0").map(|t| t.exited.is_some()).unwrap_or(false) {
+        reached = true;
+    }
+    c.proc_.kill();
+    Ok((reached, rounds, steps))
+}
+
+pub fn flood_lasso(ctx: &Ctx) -> Result<Value, String> {
+    let mut out = vec![];
+    let mut rounds_total = 0u64;
+    let mut steps_total = 0u64;
+    let rounds = ctx.tier.pick(30usize, 200);
+    for bs in [1u8, 2] {
+        let (reached, r, steps) = flood_lasso_once(bs, rounds)?;
+        rounds_total += r as u64;
+        steps_total += steps as u64;
+        out.push(json!({"batch_size": bs, "flag_check_reached": reached, "refill_rounds": r, "steps": steps}));
+        if !reached {
+            ctx.violation("flood-starves-flag-check", "receive-loop", "open-loop-flood", json!({"kind":"lasso","batch_size":bs,"refill_rounds":r,
+                "message":"with the receive queue refilled at every batch boundary the worker stays inside process_events' receive loop: the abstract state (flag stored, worker at `sent`, queue non-empty) recurs without a flag_check in between"}));
+        }
+    }
+    Ok(json!({"runs": out, "executions": 2, "rounds": rounds_total, "steps": steps_total}))
 }
